@@ -5,6 +5,7 @@ import (
 	"fmt"
 	"os"
 	"strconv"
+	"strings"
 
 	"verif/engine/internal/core"
 	"verif/engine/internal/props"
@@ -38,7 +39,50 @@ func debugFn(keys []string) {
 	fmt.Printf("%d outcomes, %d discharged\n", len(rep.Outcomes), n)
 }
 
+func debugCodec(keys []string) {
+	w, err := core.Load()
+	if err != nil {
+		fmt.Println("load:", err)
+		os.Exit(2)
+	}
+	rep := core.NewReport("DBG", "quick", 0)
+	jobs, _ := props.CodecJobs(w, rep, "encode", "decode")
+	var sel []props.Job
+	for _, j := range jobs {
+		for _, k := range keys {
+			if strings.Contains(j.Fn.String(), k) {
+				sel = append(sel, j)
+			}
+		}
+	}
+	props.RunJobs(w, rep, sel)
+	for f, r := range rep.Aborted {
+		fmt.Println("ABORTED", f, ":", r)
+	}
+	n := 0
+	var tot float64
+	for _, o := range rep.Outcomes {
+		tot += o.Seconds
+		if o.Status != "discharged" {
+			if o.Script != "" {
+				os.WriteFile("/tmp/dbg.smt2", []byte(o.Script), 0o644)
+			}
+			fmt.Printf("%-10s %s [%s] paths=%d size=%d %.2fs\n   %s\n   model=%v arr=%v\n", o.Status, o.Name, o.Backend, o.Members, o.Size, o.Seconds, o.Info, o.Model, o.Arr)
+		} else {
+			n++
+		}
+		if o.Seconds > 1 {
+			fmt.Printf("SLOW %s %.1fs paths=%d size=%d [%s]\n", o.Name, o.Seconds, o.Members, o.Size, o.Backend)
+		}
+	}
+	fmt.Printf("%d outcomes, %d discharged, %.1fs solver wall\n", len(rep.Outcomes), n, tot)
+}
+
 func main() {
+	if len(os.Args) >= 3 && os.Args[1] == "codec" {
+		debugCodec(os.Args[2:])
+		return
+	}
 	if len(os.Args) >= 3 && os.Args[1] == "fn" {
 		debugFn(os.Args[2:])
 		return
